@@ -369,7 +369,7 @@ package text
 //@ -- the whitespace run that follows it; on success the end of every alternative is moved past the run that follows
 //@ -- it, or the mode's whitespace error is returned.
 //@ -- KNOWN FINDING (C07): the end positions are written into the nodes the inner parser returned -- nodes that may be
-//@ -- shared with the result cache and with other consumers (obligation frame/call#...:ast.SetReaderPos).
+//@ -- shared with the result cache and with other consumers (obligation frame/call:SetReaderPos#1).
 //@ closure RightTrim$1(ctx *parsley.Context, lrc data.IntMap, pos parsley.Pos) (n parsley.Node, cp data.IntSet, err parsley.Error)
 //@   captures (wsMode WsMode, p parsley.Parser)
 //@   requires p != nil
